@@ -3,7 +3,7 @@
 Proof part : Properties/C13.lean — NOUNIQUE = concatenation; no key twice otherwise; union ⊆ and
              ⊇ (up to the key in force, exactly when the key is the path); exclusions = the walk's
              candidates no exclusion regex full-matches on path(+sep for directories); exclusion
-             regexes have DOTMATCH forced for every flag word; witnesses incl. KF-D20.
+             regexes have DOTMATCH forced for every flag word; witnesses incl. KF-G1.
 Tie        : K5 on lists of 1-4 patterns (overlapping, identical, case variants, BRACE/SPLIT
              generated) with 0-2 exclusions (exclude= and inline NEGATE), NOUNIQUE, IGNORECASE/CASE,
              NEGATEALL, NODIR, SCANDOTDIR, pathlib mode: exact event sequences.
@@ -90,7 +90,7 @@ def run(ck: Check) -> int:
     ntrees, per = (300, 12) if quick else (10000, 16)
     found: list = []
     stats = {'union': 0, 'nounique_concat': 0, 'exclude_independent': 0, 'inline_vs_exclude': 0, 'dups_checked': 0,
-             'KF-D20 seen': 0}
+             'KF-G1 seen': 0, 'KF-D23 seen': 0}
 
     def key(G_, fl):
         ci = bool(fl & G.IGNORECASE) and not fl & G.CASE
@@ -138,9 +138,19 @@ def run(ck: Check) -> int:
             if len(set(ks)) != len(ks):
                 dup = next(x for x in res if [kf(y) for y in res].count(kf(x)) > 1)
                 kid = None
-                if g.nounique and len(g.pattern) <= 1 and fl & G.SCANDOTDIR:
-                    kid = 'KF-D20'
-                    stats['KF-D20 seen'] += 1
+                shortcut = g.nounique and len(g.pattern) <= 1 and bool(fl & G.SCANDOTDIR)
+                if shortcut and len(set(res)) != len(res):
+                    # the very same spelling twice: two expansions of `**` reach one path
+                    kid = 'KF-G1'
+                    stats['KF-G1 seen'] += 1
+                elif shortcut and fl & G.IGNORECASE and not fl & G.CASE:
+                    # different spellings with one case-folded key: they must be different real
+                    # entries (different names in the same directory), not one entry twice
+                    same_key = [x for x in res if kf(x) == kf(dup)]
+                    if len(set(same_key)) == len(same_key) and \
+                            all(os.path.lexists(os.path.join(t.root, x)) for x in same_key):
+                        kid = 'KF-D23'
+                        stats['KF-D23 seen'] = stats.get('KF-D23 seen', 0) + 1
                 f = Failing(f'{dup!r} returned twice without NOUNIQUE', c.to_json(G, t), 'no key twice', res[:12],
                             'wcmatch/glob.py:539-546')
                 ck.report(f, kid) if kid else found.append(f)
